@@ -114,17 +114,27 @@ func WaitFor(d time.Duration, cond func() bool) bool {
 	}
 }
 
-// Summaries renders goroutines compactly for messages.
+// Summaries renders goroutines compactly for messages: the innermost frames plus every frame of
+// the repository.
 func Summaries(gs []Goroutine) string {
 	var sb strings.Builder
 	for _, g := range gs {
 		sb.WriteString(g.Header)
 		fs := frames(g)
+		skipped := false
 		for i, f := range fs {
-			if i >= 6 {
-				break
+			if i >= 3 && !strings.HasPrefix(f, repoPath) {
+				skipped = true
+				continue
+			}
+			if skipped {
+				sb.WriteString("\n    ...")
+				skipped = false
 			}
 			sb.WriteString("\n    ")
+			if j := strings.LastIndex(f, "("); j > 0 && strings.HasPrefix(f, repoPath) {
+				f = f[:j] + "(...)"
+			}
 			sb.WriteString(f)
 		}
 		sb.WriteString("\n")
